@@ -453,6 +453,7 @@ func (s *sender) sendData() {
 	// the retrasmission timeout."
 	// 根据RFC 5681，第10页将拥塞窗口减少到min（IW，cwnd）。
 	// 如果TCP在超过重新传输超时的时间间隔内没有发送数据，TCP应该在开始传输之前将cwnd设置为不超过RW。
+	s.verifNotIdle()
 	if !s.fr.active && time.Now().Sub(s.lastSendTime) > s.rto {
 		if s.sndCwnd > InitialCwnd {
 			s.sndCwnd = InitialCwnd
